@@ -4,10 +4,19 @@ from replay import ao_native as N
 
 
 def scenarios(seed, tier, failed):
-    return N.consume_scenarios(seed, tier)
+    from replay import ld_schedules
+    for k, sc in enumerate(ld_schedules.scenarios(seed + 4, tier)):
+        if k < (40 if tier == 'quick' else 1500):
+            yield sc
+    for sc in N.consume_scenarios(seed, tier):
+        yield sc
 
 
 def run(sc):
+    if sc.get('kind') == 'ld-schedule':
+        from replay import ld_schedules
+        ok, detail = ld_schedules.run_schedule(sc)
+        return ok, detail, 'LockingDeque.append'
     return N.run_consume(sc)
 
 
